@@ -71,7 +71,17 @@ DispatchDict ==
 DispatchModes ==
     UNION {{LCase(c, sv, [ok |-> TRUE, err |-> 0], TRUE, "dispatch-per-mode") : sv \in PerMode(CommandTable[c].schema, F, TRUE)} : c \in {6, 10}}
 
-MC_Cases == Ctap2Cases \cup Ctap1Cases \cup VendorCases \cup Ctap1Constructed \cup DispatchLattice \cup DispatchPairs \cup DispatchTriples
+\* the dispatcher hands back WHATEVER the handler answered: several answers per handler (presence
+\* bits clear under an enforcing control byte, counters at the extremes, empty and full responses)
+AnswerCases ==
+    {[op |-> "dispatch", tag |-> "handler-answer", proto |-> "ctap1", variant |-> a.variant, wire |-> a.wire,
+      script |-> [ok |-> TRUE, err |-> 0, answer |-> k], hasLb |-> TRUE] : a \in Apdus, k \in 1..5}
+    \cup {[op |-> "dispatch", tag |-> "handler-answer", proto |-> "ctap1-constructed", variant |-> "Authenticate",
+            wire |-> <<ctl>> \o Pattern(7, 16), script |-> [ok |-> TRUE, err |-> 0, answer |-> k], hasLb |-> TRUE] : ctl \in U2fControlBytes, k \in 0..5}
+    \cup {[op |-> "dispatch", tag |-> "handler-answer", proto |-> "ctap2", variant |-> CommandTable[c].name, wire |-> WireOf(c),
+            script |-> [ok |-> TRUE, err |-> 0, answer |-> k], hasLb |-> TRUE] : c \in {6, 10, 65}, k \in 1..4}
+
+MC_Cases == AnswerCases \cup Ctap2Cases \cup Ctap1Cases \cup VendorCases \cup Ctap1Constructed \cup DispatchLattice \cup DispatchPairs \cup DispatchTriples
 MC_CasesDict == DispatchDict \cup DispatchModes
 MC_CasesDictDeep ==
     MC_CasesDict
